@@ -83,6 +83,76 @@ pub fn judge_case(case: &Case, tracing: Tracing, st: &mut Stats) -> CheckResult 
     Ok(())
 }
 
+/// values of a few representation classes, as Aiken text: (type, two sample expressions over `a: Int`)
+const INSTANCES: &[(&str, &str, &str)] = &[
+    ("Int", "a", "a + 1"),
+    ("ByteArray", "#\"00\"", "#\"ff01\""),
+    ("Bool", "a > 0", "False"),
+    ("List<Int>", "[a, 2]", "[]"),
+    ("(Int, ByteArray)", "(a, #\"\")", "(2, #\"aa\")"),
+    ("Option<Int>", "Some(a)", "None"),
+    ("Pairs<Int, Int>", "[Pair(a, 1)]", "[]"),
+    ("Data", "builtin.i_data(a)", "builtin.b_data(#\"\")"),
+];
+
+/// A constructor of a generic type used as a function value must behave like the lambda that
+/// calls it (`map(xs, Some)` = `map(xs, fn(x) { Some(x) })`), and neither may go wrong.
+fn judge_ctor_as_function(src: &mut Src, st: &mut Stats) -> CheckResult {
+    st.eval();
+    let (ty, v1, v2) = *src.pick(INSTANCES);
+    let (ty2, w1, _) = *src.pick(INSTANCES);
+    let decls = "use aiken/builtin\n\npub type Box<a> {\n  Box(Int, a)\n}\n\npub type Rec<a> {\n  Rec { k: Int, v: a }\n}\n\npub type Twice<a, b> {\n  TwiceA(a, b)\n  TwiceB\n}\n\nfn map(xs: List<a>, f: fn(a) -> b) -> List<b> {\n  when xs is {\n    [] -> []\n    [x, ..r] -> [f(x), ..map(r, f)]\n  }\n}\n\nfn apply1(f: fn(a) -> b, x: a) -> b {\n  f(x)\n}\n\nfn apply2(f: fn(a, b) -> c, x: a, y: b) -> c {\n  f(x, y)\n}\n";
+    // (expression using the constructor as a value, the same with an explicit lambda)
+    let (direct, eta): (String, String) = match src.below(7) {
+        0 => (format!("map([{v1}, {v2}], Some)"), format!("map([{v1}, {v2}], fn(x) {{ Some(x) }})")),
+        1 => (format!("apply1(Some, {v1})"), format!("apply1(fn(x) {{ Some(x) }}, {v1})")),
+        2 => (format!("apply2(Box, a, {v1})"), format!("apply2(fn(k, v) {{ Box(k, v) }}, a, {v1})")),
+        3 => (format!("apply2(Rec, a, {v1})"), format!("apply2(fn(k, v) {{ Rec {{ k, v }} }}, a, {v1})")),
+        4 => (format!("apply2(TwiceA, {v1}, {w1})"), format!("apply2(fn(x, y) {{ TwiceA(x, y) }}, {v1}, {w1})")),
+        5 => (format!("{{\n    let mk = TwiceA\n    mk({v1}, {w1})\n  }}"), format!("{{\n    let mk = fn(x, y) {{ TwiceA(x, y) }}\n    mk({v1}, {w1})\n  }}")),
+        _ => (format!("{{\n    let mk = if a > 100 {{\n      Some\n    }} else {{\n      Some\n    }}\n    mk({v2})\n  }}"), format!("Some({v2})")),
+    };
+    let _ = ty2;
+    let tracing = if src.bool() { Tracing::All(TraceLevel::Silent) } else { Tracing::All(TraceLevel::Verbose) };
+    let program = |e: &str| format!("{decls}\npub fn entry(a: Int) -> Data {{\n  let r = {e}\n  let d: Data = r\n  d\n}}\n");
+    let (s1, s2) = (program(&direct), program(&eta));
+    let input = json!({"source": s1, "instantiated_at": ty, "tracing": format!("{tracing:?}")});
+    let compile = |s: &str| match c01::compile_entry(s, tracing) {
+        CompileOutcome::Ok(c) => Ok(Some(c)),
+        CompileOutcome::Rejected(e) => {
+            if std::env::var("VERIF_SHOW_REJECTS").is_ok() {
+                eprintln!("{s}\n{e:?}");
+            }
+            Ok(None)
+        }
+        CompileOutcome::Panic((msg, loc)) => Err(Failure::new(panic_signature("compile", &msg, &loc), json!({"panic": msg, "at": loc, "input": input}))),
+        CompileOutcome::FreeUnique(e) => Err(Failure::new("compiled-program-has-free-variable", json!({"error": e, "input": input}))),
+    };
+    let (Some(c1), Some(c2)) = (compile(&s1)?, compile(&s2)?) else {
+        st.class("constructor-values:rejected-by-checker");
+        return Ok(());
+    };
+    for a in [0i64, 5] {
+        let args = vec![uplc::ast::Data::integer(a.into())];
+        let (o1, _, _) = aik::eval_with_args(&c1.program, &args);
+        let (o2, _, _) = aik::eval_with_args(&c2.program, &args);
+        if let Outcome::Error(k, detail) = &o1 {
+            let sig = if FORBIDDEN.contains(&k.as_str()) { format!("structural-error:{k}") } else { format!("constructor-value-fails:{k}") };
+            return Err(Failure::new(sig, json!({"input": input, "argument": a, "error": detail})));
+        }
+        let show = |o: &Outcome| match o {
+            Outcome::Value(t) => t.to_pretty(),
+            Outcome::Error(k, _) => format!("error {k}"),
+        };
+        if show(&o1) != show(&o2) {
+            return Err(Failure::new("constructor-value-differs-from-its-lambda", json!({"input": input, "argument": a, "as_value": show(&o1), "as_lambda": show(&o2), "lambda_source": s2})));
+        }
+    }
+    st.class("constructor-values:agree");
+    st.nontrivial(&s1);
+    Ok(())
+}
+
 pub fn run(cx: &mut Cx) -> String {
     let tier = cx.tier;
     cx.shrink_iters = 0;
@@ -102,5 +172,6 @@ pub fn run(cx: &mut Cx) -> String {
             c01::judge_and_shrink(case, st, &|c, st| judge_case(c, tracing, st))
         });
     }
+    cx.prop("constructors-as-functions", tier.of(6_000, 150_000), 40, judge_ctor_as_function);
     RULE.to_string()
 }
